@@ -22,7 +22,7 @@ From TucModel Require Import Base.Bytes Base.ListX Model.Bounds Spec.Resolve Pro
   Model.CutBytes Spec.BytesMode Tie.Gen_cut_bytes Tie.Bridge_cut_bytes
   Spec.Fields Proofs.ScanSplit Tie.RsScan Tie.Gen_fill_fields Tie.Bridge_fill_fields Tie.Gen_compress_delimiter Tie.Bridge_compress_delimiter
   Proofs.C01More Tie.Gen_trim Tie.Bridge_trim
-  Tie.Gen_fb_try_from Tie.Bridge_fb_try_from Tie.Gen_print_field Tie.Bridge_print_field Tie.Gen_print_bof Tie.Bridge_print_bof
+  Tie.Gen_fb_try_from Tie.Bridge_fb_try_from Tie.Gen_print_field Tie.Bridge_print_field Tie.Gen_print_bof Tie.Bridge_print_bof Model.CutBytes Tie.Gen_print_rest Tie.Bridge_print_rest
   Proofs.C06 Proofs.PlainMulti Tie.RsCut Tie.Gen_cut_str Tie.Bridge_cut_str
   Model.Utf8 Model.CutLines Proofs.C05 Proofs.C03Full Proofs.C05Full Tie.RsLines Tie.Gen_read_and_cut_lines Tie.Bridge_read_and_cut_lines
   Proofs.C12 Proofs.C16 Tie.Gen_fill_regex Tie.Bridge_fill_regex Tie.Gen_trim_regex Tie.Bridge_trim_regex Tie.Gen_compress_regex Tie.Bridge_compress_regex
@@ -449,7 +449,20 @@ Theorem tie_C04_print_bof_step : forall (g : gsopt) (i : nat) (curr : Z) (chunk 
     Ret (Some (Z.of_nat (i + (length (skipn i (items (gs_bounds g))) - length its'))), out).
 Proof. intros g i curr chunk a b trunc complete H1 H2 H3 H4. exact (tie_print_bof g i curr chunk a b trunc complete H1 H2 H3 H4). Qed.
 
+(** C13 over the translated end-of-record step of the -M path: a bound that is still pending when the record
+    ends prints its own fallback, else the generic one, else the run fails (an open range that has started is
+    complete); fillers are printed verbatim *)
+Theorem tie_C13_pending_bounds_at_record_end : forall (g : gsopt) (i : nat) (n : Z),
+  (i <= length (items (gs_bounds g)))%nat ->
+  Forall (comparable n) (skipn i (items (gs_bounds g))) ->
+  match pff (so_of g) (skipn i (items (gs_bounds g))) n with
+  | Some t => gen_print_rest (Z.of_nat i) g n = Ret (Some tt, t)
+  | None => exists p, gen_print_rest (Z.of_nat i) g n = Ret (None, p)
+  end.
+Proof. exact tie_print_rest. Qed.
+
 Print Assumptions tie_try_into_range_spec.
+Print Assumptions tie_C13_pending_bounds_at_record_end.
 Print Assumptions tie_C04_print_bof_step.
 Print Assumptions tie_C07_general_path.
 Print Assumptions tie_C16_general_path.
